@@ -13,6 +13,7 @@ CONSTANTS
   B1Names = {"b1"}
   SameName = TRUE
   XdNames = {"xd"}
+  Packs = {FALSE}
   Ptrs = {4, 8}
   Lead = {FALSE, TRUE}
   EmptyBlocks = {FALSE, TRUE}
